@@ -219,7 +219,11 @@ static const char *state_str(void)
     switch (bts->conn.state) {
     case conn_state_resolving: return "resolving";
     case conn_state_connecting: return "connecting";
-    case conn_state_ready: return "ready";
+    case conn_state_ready:
+	/* an established connection holds no connect-phase helper (their timer/socket fds would stay in the epoll set) */
+	if (bts->conn.tconnect != NULL) return "ready+tconnect";
+	if (bts->conn.query != NULL) return "ready+query";
+	return "ready";
     case conn_state_closed: return "closed";
     case conn_state_bad: snprintf(buf, sizeof(buf), "bad:%s", h_errname(bts->conn.badness_reason)); return buf;
     default: return "?";
